@@ -221,11 +221,18 @@ llm_rails_events_history_cache = {}
 def _generate_cache_key(config_ids: List[str]) -> str:
     """Generates a cache key for the given config ids."""
 
-    return "-".join((config_ids))  # remove sorted
+    # The "/" can never be part of a valid config id, so the key for a combination
+    # of configs can't be the same as the key for a single config.
+    return "/".join((config_ids))  # remove sorted
 
 
 def _get_rails(config_ids: List[str]) -> LLMRails:
     """Returns the rails instance for the given config id."""
+
+    # @NOTE: (Rdinu) Reject config_ids that contain dangerous characters or sequences
+    for config_id in config_ids:
+        if re.search(r"[\\/]|(\.\.)", config_id):
+            raise ValueError("Invalid config_id.")
 
     # If we have a single config id, we just use it as the key
     configs_cache_key = _generate_cache_key(config_ids)
@@ -247,10 +254,6 @@ def _get_rails(config_ids: List[str]) -> LLMRails:
     for config_id in config_ids:
         base_path = os.path.abspath(app.rails_config_path)
         full_path = os.path.normpath(os.path.join(base_path, config_id))
-
-        # @NOTE: (Rdinu) Reject config_ids that contain dangerous characters or sequences
-        if re.search(r"[\\/]|(\.\.)", config_id):
-            raise ValueError("Invalid config_id.")
 
         if os.path.commonprefix([full_path, base_path]) != base_path:
             raise ValueError("Access to the specified path is not allowed.")
